@@ -2789,7 +2789,7 @@ int API_FUNC qthread_fork_copyargs_to(qthread_f             f,
                          0,
                          NULL,
                          preferred_shep,
-                         0);
+                         QTHREAD_SPAWN_RET_SYNCVAR_T);
 } /*}}}*/
 
 int API_FUNC qthread_fork_copyargs(qthread_f   f,
